@@ -236,6 +236,48 @@ def run(ctx):
                 world.faults = {0: (ctx.rng.choice(["write", "read"]),)}
                 mgr.handle_line(proto, json.dumps(reqs.make("getPubKey", ctx.rng)[0]).encode())
                 world.reset_counters()
+    # uiHeartbeat histories on one long-lived manager: heartbeats cut short, retried while the device still sits in the
+    # heartbeat app, power cycles and repairs in between - every heartbeat that *starts in the signer on a healthy
+    # device* is judged like a first one (back in the signer with the device's data, or a device error)
+    n_hist = ctx.pick(30, 800)
+    n_judged = 0
+    for i in range(n_hist):
+        d = random_device(ctx.rng)
+        world, proto = mgr.serving_manager(device=d)
+        for step in range(ctx.rng.randint(5, 9)):
+            install(world)
+            act = ctx.rng.choice(["uihb", "uihb", "uihb_cut", "power_cycle", "query", "uihb_as_is"])
+            world.reset_counters()
+            if act == "power_cycle":
+                # the device restarts into the signer; the manager learns of it through a dead link
+                d.mode = MODE_SIGNER
+                d.exit_modes, d.exit_drops = [], []
+                world.faults = {0: (ctx.rng.choice(["write", "read"]),)}
+                mgr.handle_line(proto, json.dumps(reqs.make("getPubKey", ctx.rng)[0]).encode())
+                world.reset_counters()
+                mgr.handle_line(proto, json.dumps(reqs.make("getPubKey", ctx.rng)[0]).encode())
+                continue
+            if act == "query":
+                req, st = reqs.make("getPubKey", ctx.rng)
+                o = mgr.handle_line(proto, json.dumps(req).encode())
+                if d.mode == MODE_SIGNER and not proto._comm_issue:
+                    add(project("getPubKey", req, o.reply() or {}, d, st.get("key")),
+                        {"src": "uihb-history", "cmd": "getPubKey", "step": step})
+                continue
+            start = d.mode
+            pending = proto._comm_issue
+            if act == "uihb_cut":
+                world.faults = {ctx.rng.randrange(2, 9): ("timeout",)}
+            d.exit_modes, d.exit_drops = [], []
+            req, st = reqs.make("uiHeartbeat", ctx.rng)
+            o = mgr.handle_line(proto, json.dumps(req).encode())
+            if act == "uihb" and start == MODE_SIGNER and not pending:
+                t = project("uiHeartbeat", req, o.reply() or {}, d)
+                t["finalmode"] = {MODE_SIGNER: "signer", MODE_UIHB: "uihb", MODE_BOOT: "boot"}.get(d.mode, "unknown")
+                add(t, {"src": "uihb-history", "cmd": "uiHeartbeat", "step": step, "code": t["code"]})
+                n_judged += 1
+    res.coverage["ui_heartbeat_histories"] = n_hist
+    res.coverage["ui_heartbeats_judged_in_histories"] = n_judged
     res.coverage["device_change_sequences"] = n_seq
     res.coverage["random_device_states"] = n_rand
     res.coverage["model_drift"] = drift
